@@ -319,3 +319,48 @@ Proof.
   unfold holds. destruct (eval false c I) as [[[|]| |]|] eqn:E; try discriminate.
   intros _. rewrite (eval_sc_refines c I _ E). reflexivity.
 Qed.
+
+(* ---------------- C02: get_applicable_actions and query purity ---------------- *)
+Definition sim_applicable_actions (sc : bool) (P : problem) (s : state) (insts : list (N * list value)) : list (N * list value) :=
+  filter (fun ai => match lookup_action P (fst ai) with
+                    | Some a => sim_is_applicable sc P s a (snd ai)
+                    | None => false end) insts.
+
+Theorem applicable_actions_exact sc P s insts ai :
+  In ai (sim_applicable_actions sc P s insts) <->
+  In ai insts /\ exists a, lookup_action P (fst ai) = Some a /\ exists t, sim_apply sc P s a (snd ai) = Some t.
+Proof.
+  unfold sim_applicable_actions. rewrite filter_In. split.
+  - intros [H1 H2]. split; [exact H1|].
+    destruct (lookup_action P (fst ai)) as [a|]; [|discriminate]. exists a. split; [reflexivity|].
+    rewrite is_applicable_iff_apply in H2. destruct (sim_apply sc P s a (snd ai)) as [t|]; [eauto | discriminate].
+  - intros [H1 [a [Ha [t Ht]]]]. split; [exact H1|]. rewrite Ha, is_applicable_iff_apply, Ht. reflexivity.
+Qed.
+
+(* a simulator query is a function of (problem, state, query) only: any interleaving of queries gives each query the
+   answer it would get alone, and the state passed in is not an output of any query *)
+Inductive query := QApplicable (aid : N) (args : list value) | QApply (aid : N) (args : list value) | QGoal | QUnsatGoals.
+Inductive answer := ABool (b : bool) | AState (o : option (list (option value))) | ANat (n : nat).
+
+Definition answer_of (sc : bool) (P : problem) (keys : list (N * list value)) (s : state) (q : query) : answer :=
+  match q with
+  | QApplicable aid args =>
+      ABool (match lookup_action P aid with Some a => sim_is_applicable sc P s a args | None => false end)
+  | QApply aid args =>
+      AState (match lookup_action P aid with
+              | Some a => option_map (fun t => map (fun k => t (fst k) (snd k)) keys) (sim_apply sc P s a args)
+              | None => None end)
+  | QGoal => ABool (sim_is_goal sc P s)
+  | QUnsatGoals => ANat (length (sim_unsat_goals sc P s))
+  end.
+
+Definition run_queries (sc : bool) (P : problem) (keys : list (N * list value)) (qs : list (state * query)) : list answer :=
+  map (fun sq => answer_of sc P keys (fst sq) (snd sq)) qs.
+
+Theorem queries_pure sc P keys qs1 sq qs2 :
+  nth_error (run_queries sc P keys (qs1 ++ sq :: qs2)) (length qs1) = Some (answer_of sc P keys (fst sq) (snd sq)).
+Proof.
+  unfold run_queries. rewrite map_app. simpl.
+  rewrite nth_error_app2 by (rewrite map_length; apply le_n).
+  rewrite map_length, Nat.sub_diag. reflexivity.
+Qed.
